@@ -3,7 +3,7 @@
    Print Assumptions.  Model: M_Elf (elfexec GetBase/kernelBase/ProgramHeadersForMapping/
    HeaderForFileOffset, binutils findProgramHeader/computeBase/ObjAddr, nm addrInfo).
    Specification: S_Elf (loader model [image]/[load]/[pieceb], "address - bias", symbol lookup). *)
-From PV Require Import M_Elf S_Elf L_Elf L_ElfNm.
+From PV Require Import M_Elf S_Elf L_Elf L_ElfNm L_ElfSess.
 Open Scope Z_scope.
 
 (* [loaded_at ef bias m a p]: ef is ET_DYN/ET_EXEC, p is a linker-made PT_LOAD segment (file bytes,
@@ -142,6 +142,41 @@ Theorem a2l_without_nm_unchanged : forall base addr stack, a2l_addr_info base No
 Proof. exact a2l_no_nm_lemma. Qed.
 Print Assumptions a2l_without_nm_unchanged.
 
+(* -- sessions: one Binutils object, many Open / ObjAddr calls.  [session_from files hs evs] runs
+      the events from a state [hs] (one entry per Open so far) -- *)
+(* Open appends a fresh, independent object behind the existing ones *)
+Theorem session_open_fresh : forall files hs fi s l o,
+  match open_elf (nth fi files elf0) s l o with
+  | Ok m => session_step files hs (SOpen fi s l o) = ((hs ++ [HOpen fi m None])%list, OOpen None) /\
+            nth_error (hs ++ [HOpen fi m None]) (List.length hs) = Some (HOpen fi m None) /\
+            m = {| em_start := s; em_limit := l; em_offset := o; em_koff := None |}
+  | Err c => session_step files hs (SOpen fi s l o) = ((hs ++ [HFail])%list, OOpen (Some c))
+  end.
+Proof. exact session_open_fresh_lemma. Qed.
+Print Assumptions session_open_fresh.
+
+(* whatever the session does afterwards (other Opens of the same or of other files, questions to
+   other objects, configuration changes), a fresh object answers exactly as a stand-alone file *)
+Theorem session_handle_independent : forall files evs hs h fi m,
+  nth_error hs h = Some (HOpen fi m None) ->
+  answers_of h evs (session_from files hs evs) = obj_addr_seq (Some m) true (nth fi files elf0) (addrs_of h evs).
+Proof. exact session_handle_independent_lemma. Qed.
+Print Assumptions session_handle_independent.
+
+(* hence "address - bias" per object holds along every history (outside F23) *)
+Theorem session_handle_meets_spec : forall files evs hs h fi m bias,
+  nth_error hs h = Some (HOpen fi m None) ->
+  match addrs_of h evs with a0 :: _ => any_F23 (nth fi files elf0) bias m a0 = false | [] => True end ->
+  spec_handle (nth fi files elf0) bias m (addrs_of h evs) (answers_of h evs (session_from files hs evs)) = true.
+Proof. exact session_handle_meets_spec_lemma. Qed.
+Print Assumptions session_handle_meets_spec.
+
+(* a loader-made mapping of a user-space object can always be opened *)
+Theorem open_elf_user_ok : forall ef s l o,
+  user_elfb ef = true -> 0 < s < two63 -> exists m, open_elf ef s l o = Ok m.
+Proof. exact open_elf_user_ok_lemma. Qed.
+Print Assumptions open_elf_user_ok.
+
 (* -- the hypotheses are satisfiable -- *)
 (* exe_linux_64 of binutils_test.go (LOAD off 0 vaddr 0x400000 filesz 0x6fc R E; LOAD off 0xe10 vaddr
    0x600e10 filesz 0x230 memsz 0x238 RW) as a PIE image at bias 0x555555554000 *)
@@ -170,3 +205,16 @@ Example ex_a2l_fixup :
   sortedb (shift_syms 256 raw) = true /\
   a2l_addr_info 256 (Some (shift_syms 256 raw)) 4688 ["inl"; "_ZN3foo"]%string = ["inl"; "_ZN3foo3barEv"]%string.
 Proof. vm_compute. split; reflexivity. Qed.
+
+(* tiny object (text and data share file page 0, both mapped from offset 0 for one page): the data
+   mapping is opened and asked first, then the text mapping -- each gets its own answer *)
+Example ex_session_data_then_text :
+  let ef := {| e_type := ET_DYN;
+               e_progs := [{| ph_type := 1; ph_flags := 5; ph_off := 0; ph_vaddr := 0; ph_filesz := 3200; ph_memsz := 3200 |};
+                           {| ph_type := 1; ph_flags := 6; ph_off := 3200; ph_vaddr := 2100352; ph_filesz := 496; ph_memsz := 496 |}];
+               e_sections := [] |} in
+  let b := 139887348482048 in
+  session_run [ef] [SOpen 0 (b + 2097152) (b + 2101248) 0; SAddr 0 (b + 2100480);
+                    SOpen 0 b (b + 4096) 0; SAddr 1 (b + 1024); SAddr 0 (b + 2100352)]
+  = [OOpen None; OAddr (Ok 2100480); OOpen None; OAddr (Ok 1024); OAddr (Ok 2100352)].
+Proof. vm_compute. reflexivity. Qed.
